@@ -21,7 +21,7 @@ def worker_init(root):
 
 def case_id(cs):
     h = hashlib.sha1(json.dumps([cs["arch"], cs["text"], cs.get("flag_deps", False),
-                                 cs.get("fixed", False)]).encode()).hexdigest()[:12]
+                                 cs.get("fixed", False), cs.get("lines")]).encode()).hexdigest()[:12]
     return h
 
 
@@ -30,7 +30,7 @@ def get_case(cs):
     c = CTX["cases"].get(cid)
     if c is None:
         c = lcd.Case(cs["name"], cs["arch"], cs["text"], cs.get("flag_deps", False),
-                     cs.get("fixed", False))
+                     cs.get("fixed", False), cs.get("lines"))
         c.prepare()
         c.cid = cid
         import os
